@@ -268,7 +268,12 @@ Definition op_add_tree (w : world) (ti p sti : nat) (b : before) (deep : option 
       if typed t && negb (typed st) then (Err EType, w)
       else
       let tops := map rid (forest_of st) in
-      let order := match b with BNone | BFalse => tops | _ => rev tops end in
+      (* an index is resolved once against the present child list (as list.insert would) and the
+         copies are inserted in reverse at that fixed index; before=node / None keep the order (fix D70) *)
+      let nch := match children_of p (forest_of t) with Some ch => length ch | None => 0 end in
+      let jb := match b with BTrue => Some 0 | BIdx z => Some (py_index z nch) | _ => None end in
+      let order := match jb with Some _ => rev tops | None => tops end in
+      let b := match jb with Some j => BIdx (Z.of_nat j) | None => b end in
       let dp := match deep with Some x => Some x | None => Some true end in
       if any_collides t p st tops then (Err EUnique, w)
       else if any_into_own_branch ti sti st tops p dp then (Err EValue, w)
